@@ -55,6 +55,8 @@ def parse_kind(parse):
             return parse_kind(norm(t.args[0]))
         if fn in ("np.array", "numpy.array") and t.args and from_line(t.args[0]):
             dt = next((norm(k.value) for k in t.keywords if k.arg == "dtype"), "")
+            if "split(',')" in norm(t.args[0]):
+                return "csv"        # which values are kept is decided by evaluating the fragment (H-TOK)
             return {"float": "floats", "int": "ints"}.get(dt, "tokens")
         if isinstance(t.func, ast.Attribute) and from_line(t):
             if t.func.attr == "split":
